@@ -36,8 +36,8 @@ EXPLANATION = ("Deductive: for each of the 5 shipped model functions the real bo
                "Sneddon sphere solution on a 2001-point grid of delta/R in (0,1].")
 
 
-def unit_model(key, tier, seed):
-    S = Session("C02", f"model.{key}", M.target(key))
+def unit_model(key, tier, seed, prop="C02"):
+    S = Session(prop, f"model.{key}", M.target(key))
     bounds, order = M.read_bounds(key)
     st = {}
 
